@@ -2912,7 +2912,7 @@ def transform_int(column_inds, column_vals, column_offsets, col_idx,
     Transform int method for numeric importer in field_importer.py
     """
     widths = column_inds[col_idx, 1:written_row_count + 1] - column_inds[col_idx, :written_row_count]
-    width = widths.max()
+    width = widths.max(initial=0)
     elements = np.zeros(written_row_count, 'S{}'.format(width))
     fixed_string_transform(column_inds, column_vals, column_offsets, col_idx,
                            written_row_count, width, elements.data.cast('b'))
@@ -2956,7 +2956,7 @@ def transform_float(column_inds, column_vals, column_offsets, col_idx,
     Transform float method for numeric importer in field_importer.py
     """
     widths = column_inds[col_idx, 1:written_row_count + 1] - column_inds[col_idx, :written_row_count]
-    width = widths.max()
+    width = widths.max(initial=0)
     elements = np.zeros(written_row_count, 'S{}'.format(width))
     fixed_string_transform(column_inds, column_vals, column_offsets, col_idx,
                            written_row_count, width, elements.data.cast('b'))
